@@ -59,6 +59,11 @@ def gen(tier, rng, cov):
                         # the configuration may come from the original or from a client that is itself reattached
                         o["src"] = rng.choice(["orig", "c2", "c3"])
                 cases.append({"name": "ra%d" % len(cases), "test_mode": tm, "proto": proto, "ops": ops})
+                # the same word on a plugin whose main() lingers after Serve has returned (listener closed, process
+                # still there): a Kill by whichever client must still end it (after the grace period)
+                if not tm and any(o["op"] == "Kill" and o["c"] != "c1" for o in ops) and not any(o["op"] in ("Freeze", "Crash") for o in ops) \
+                        and sum(1 for c in cases if c.get("linger") and c["proto"] == proto) < (2 if tier == "quick" else 40):
+                    cases.append({"name": "ra%d" % len(cases), "test_mode": tm, "proto": proto, "ops": ops, "linger": True})
     return cases, runs
 
 
